@@ -4,10 +4,13 @@
    fn 3: _merge_sets(groups)
    fn 101/102/103: the decidable specification evaluated on the implementation's output of fn 1/2/3
    (101/102: six structural clauses + six clauses about the meaning of the kinds; 103: _merge_sets returns the
-   transitive groups); fn 21/22: class information for the known findings about the meaning of the kinds (does the
-   bisect window / the restriction to hit-less singles change the model's result, does the model with both
-   proposed repairs meet every clause); fn 11/12: class of the repaired finding joint_core_wraps_assert.
-   Order independence is also observed on the implementation alone (Record level vs direct call, two orders)."""
+   transitive groups); fn 21/22: class information for the REPAIRED findings candidate_index_window /
+   neighbouring_singles_not_linked (would the old bisect window / the old restriction to hit-less singles change the
+   model's result on this input; used only to label a violation if a defect returns); fn 11/12: class of the
+   repaired finding joint_core_wraps_assert.
+   Order independence is also observed on the implementation alone (Record level vs direct call, two orders); the
+   witness of the repaired finding supply_order_same_key_groups is run first in two supply orders.
+   No finding of C05 is recorded as known: nothing is suppressed."""
 import itertools
 import json
 
@@ -570,9 +573,10 @@ CORPUS = [
                 (2, [(80, 100, 1), (0, 20, 1)], [(3, 10, 1)], 2), (3, [(80, 100, 1), (0, 20, 1)], [(4, 9, 1)], 3),
                 (4, [(75, 100, 1)], [(95, 99, 1)], 4), (5, [(30, 50, 1)], [(38, 44, 1)], 5),
                 (6, [(30, 50, 1)], [(39, 45, 1)], 6)]},
-    # witnesses of the known findings about the MEANING of the kinds (linear records):
+    # regression witnesses of the REPAIRED findings about the MEANING of the kinds (linear records; every clause
+    # must hold on them now):
     # candidate_index_window, interleaved: hybrid {0,1} [0:1000] core [100:900], two short hybrids after it in sort
-    # order, protocluster 6 whose core overlaps the first hybrid's core is looked up in candidates[bisect-1:] only
+    # order, protocluster 6 whose core overlaps the first hybrid's core was looked up in candidates[bisect-1:] only
     {"n": 1200, "circular": False,
      "genes": [(0, [(100, 110, 1)], [0, 1]), (1, [(12, 14, 1)], [2, 3]), (2, [(32, 34, 1)], [4, 5])],
      "protos": [(0, [(0, 1000, 1)], [(100, 900, 1)], 0), (1, [(0, 1000, 1)], [(100, 120, 1)], 1),
@@ -580,7 +584,7 @@ CORPUS = [
                 (4, [(30, 40, 1)], [(32, 34, 1)], 4), (5, [(30, 40, 1)], [(31, 35, 1)], 5),
                 (6, [(880, 1100, 1)], [(890, 950, 1)], 6)]},
     # candidate_index_window, neighbouring: protocluster 6 [50:60] lies inside hybrid {2,3} [6:100] but only the
-    # first candidate {0,1} and the one before the insertion point {4,5} are looked at
+    # first candidate {0,1} and the one before the insertion point {4,5} were looked at
     {"n": 200, "circular": False,
      "genes": [(0, [(1, 3, 1)], [0, 1]), (1, [(30, 32, 1)], [2, 3]), (2, [(12, 14, 1)], [4, 5])],
      "protos": [(0, [(0, 5, 1)], [(1, 3, 1)], 0), (1, [(0, 5, 1)], [(1, 4, 1)], 1),
@@ -588,7 +592,7 @@ CORPUS = [
                 (4, [(10, 20, 1)], [(12, 14, 1)], 4), (5, [(10, 20, 1)], [(11, 15, 1)], 5),
                 (6, [(50, 60, 1)], [(52, 55, 1)], 6)]},
     # neighbouring_singles_not_linked: 4 [5:30] and 5 [25:50] overlap each other, each also overlaps a hybrid
-    # ([0:10] and [45:60]); singles that hit a candidate are not compared with each other
+    # ([0:10] and [45:60]); singles that hit a candidate were not compared with each other
     {"n": 200, "circular": False,
      "genes": [(0, [(2, 4, 1)], [0, 1]), (1, [(50, 52, 1)], [2, 3])],
      "protos": [(0, [(0, 10, 1)], [(2, 4, 1)], 0), (1, [(0, 10, 1)], [(1, 5, 1)], 1),
@@ -597,8 +601,9 @@ CORPUS = [
 ]
 
 
-# witness of the known finding supply_order_same_key_groups: protoclusters 2 and 3 share coordinates and core, the two
-# hybrid groups {0,2} and {1,3} both span [5:165]; supply order 2,3 gives a single for 1, supply order 3,2 a single for 0
+# regression witness of the REPAIRED finding supply_order_same_key_groups: protoclusters 2 and 3 share coordinates and
+# core, the two hybrid groups {0,2} and {1,3} both span [5:165]; before the repair supply order 2,3 gave a single for 1,
+# supply order 3,2 a single for 0; `_ordered(protoclusters)` now gives a single for 0 in both orders
 ORDER_WITNESS = ({"n": 165, "circular": False, "genes": [(0, [(25, 110, 1)], [3, 4]), (1, [(115, 160, 1)], [2, 7])],
                   "protos": [(0, [(105, 165, 1)], [(105, 160, 1)], 2), (1, [(25, 150, 1)], [(25, 110, 1)], 4),
                              (2, [(5, 165, 1)], [(20, 160, 1)], 7), (3, [(5, 165, 1)], [(20, 160, 1)], 3)]},
@@ -636,7 +641,7 @@ def run(chk):
 
     order_pairs = []   # (case index a, case index b, exact?, config, [order a, order b]): outputs to be compared
 
-    # witness of the known finding supply_order_same_key_groups, run first in two supply orders
+    # regression witness of the repaired finding supply_order_same_key_groups, run first in two supply orders
     for order in ORDER_WITNESS[1:]:
         out, defs = impl_direct(ORDER_WITNESS[0], order)
         idx = add(flat_direct(ORDER_WITNESS[0], order, defs), out, 102,
@@ -710,26 +715,24 @@ def run(chk):
     verdicts = common.run_driver([s for _, s in specs])
     known = {f["class"]: f for f in common.load_known_findings("C05") if f.get("status") == "known"}
     # order independence observed on the implementation: same candidates for two supply orders (the identical list
-    # for two direct calls).  Known finding supply_order_same_key_groups: suppressed only if the class is recorded as
-    # known, two protoclusters of the configuration have identical coordinates (the only inputs on which sorted()
-    # keeps the supply order; for pairwise different coordinates C05_order_independent_linear applies), and the
-    # faithful model reproduces BOTH outputs
+    # for two direct calls).  Proved for every generated input (products are pairwise different:
+    # C05_order_independent_prekeys).  The repaired finding supply_order_same_key_groups is only used as a label: two
+    # protoclusters of the configuration have identical coordinates (the inputs on which sorted() alone kept the
+    # supply order).  Nothing is suppressed.
     chk.extra["order_independence_pairs"] = len(order_pairs)
+    chk.extra["order_independence_pairs_with_equal_coordinates"] = 0
     for idx_a, idx_b, exact, config, pair_orders in order_pairs:
         out_a, out_b = impl_outs[idx_a], impl_outs[idx_b]
         same = (out_a == out_b) if exact else (out_a[0] != 0 or out_b[0] != 0 or canon_cands(out_a) == canon_cands(out_b))
+        coords = [tuple((a, b) for a, b, _ in p[1]) for p in config["protos"]]
+        tie = len(set(coords)) < len(coords)
+        if tie:
+            chk.extra["order_independence_pairs_with_equal_coordinates"] += 1
         if same:
             continue
         chk.count("order_dependent_outputs")
-        coords = [tuple((a, b) for a, b, _ in p[1]) for p in config["protos"]]
-        tie = len(set(coords)) < len(coords)
-        if "supply_order_same_key_groups" in known and tie \
-                and model_outs[idx_a] == out_a and model_outs[idx_b] == out_b:
-            chk.known(known["supply_order_same_key_groups"]["what_fails"])
-            chk.count("known_supply_order_same_key_groups")
-            continue
         chk.violation("counterexample", "the candidates depend on the order in which the protoclusters were supplied"
-                      + (" (input in class supply_order_same_key_groups)" if tie else ""),
+                      + (" (class supply_order_same_key_groups, repaired in the code: the defect is back)" if tie else ""),
                       {"theorem_or_correspondence": "C05 order independence (observed on the implementation)",
                        "config": config, "orders": pair_orders, "outputs": [out_a, out_b],
                        "flat": cases[idx_b], "implementation": out_b, "model": model_outs[idx_b]})
@@ -751,9 +754,9 @@ def run(chk):
                   if verdict == [2] or (cases[idx][1] == 1 and cases[idx][3] == 1) or (cases[idx][1] == 2 and cases[idx][2] == 1)]
     class_flags = dict(zip(raised_idx, common.run_driver([[PROP, cases[i][1] + 10] + cases[i][2:] for i in raised_idx])))
     chk.extra["cases_in_class_joint_core_wraps_assert"] = sum(1 for flag in class_flags.values() if flag == [1])
-    # classes of the findings about the meaning of the kinds (fn 21 / 22), for the cases on which only kind clauses
-    # fail: [the bisect window / early break changes the model's result, the restriction of the single/single
-    # comparison to hit-less singles changes it, the model with both proposed repairs meets every clause]
+    # classes of the REPAIRED findings about the meaning of the kinds (fn 21 / 22), for the cases on which only kind
+    # clauses fail: [the old bisect window / early break would change the model's result, the old restriction of the
+    # single/single comparison to hit-less singles would change it, the model meets every clause]; labels only
     kind_idx = [idx for (idx, _c), verdict in zip(specs, verdicts)
                 if len(verdict) == nverdict and verdict[0] == 0 and all(verdict[1:1 + len(base_names)])]
     kind_info = dict(zip(kind_idx, common.run_driver([[PROP, cases[i][1] + 20] + cases[i][2:] for i in kind_idx])))
@@ -790,20 +793,15 @@ def run(chk):
             continue
         failed = [name for name, ok in zip(clause_names, verdict[1:]) if not ok] if len(verdict) == nverdict else ["undecodable"]
         chk.count("spec_failed: " + "; ".join(failed))
-        # known findings about the meaning of interleaved / neighbouring: suppressed only if nothing but kind clauses
-        # fails, implementation == faithful model, the input is in the class of a finding (the corresponding repair
-        # changes the model's result), every class it is in is recorded as known, and the model with both proposed
-        # repairs meets every clause on this input (so the failure is explained by exactly these defects)
+        # repaired findings about the meaning of interleaved / neighbouring (candidate_index_window,
+        # neighbouring_singles_not_linked): never suppressed; if only kind clauses fail and the input is in the class
+        # of one of them (the old code would give another result than the model here) the violation is labelled
         info = kind_info.get(idx)
-        if info is not None and len(info) >= 3 and model_outs[idx] == impl_outs[idx]:
+        if info is not None and len(info) >= 3:
             in_classes = [name for name, flag in zip(KIND_CLASSES, info[:2]) if flag]
-            if in_classes and info[2] == 1 and all(name in known for name in in_classes):
-                for name in in_classes:
-                    chk.known(known[name]["what_fails"])
-                    chk.count("known_" + name)
-                continue
             if in_classes:
-                failed = failed + ["(input in class " + "+".join(in_classes) + ")"]
+                chk.count("in_class_of_repaired_finding: " + "+".join(in_classes))
+                failed = failed + ["(class " + "+".join(in_classes) + ", repaired in the code: the defect is back)"]
         # repaired finding: a hybrid whose joint core crosses the origin listed a contained protocluster twice.
         # Would be suppressed only if exactly that clause fails, the class is recorded as known again and
         # implementation == model.
